@@ -230,6 +230,9 @@ pub fn check(case: &Case, p: &mut Probe) -> Check {
         }
         return Ok(());
     };
+    // every fourth case works on a clone of the encoder built (Encoder is Clone)
+    let enc = if case.msg_seed % 4 == 1 { enc.clone() } else { enc };
+    p.class_if(case.msg_seed % 4 == 1, "encoder-cloned");
     let dbg = format!("{enc:?}");
     p.class_if(dbg.contains("Staircase"), "path-staircase");
     p.class_if(dbg.contains("DenseGenerator"), "path-dense");
@@ -239,7 +242,7 @@ pub fn check(case: &Case, p: &mut Probe) -> Check {
     // history: a caller's mistake first - messages of a wrong length (one symbol short, three too many,
     // all ones), whatever they yield (a panic is caught, as a worker thread's supervisor would); the
     // well-formed calls that follow on the same thread must be unaffected
-    if case.msg_seed % 5 == 3 {
+    if case.msg_seed % 5 == 3 && !FUZZ_MODE.load(std::sync::atomic::Ordering::Relaxed) {
         for len in [k.saturating_sub(1), k + 3] {
             if len != k {
                 let _ = guarded(|| enc.encode(&to_gf2(&vec![1u8; len])));
@@ -363,10 +366,64 @@ pub fn large_strategy(_t: Tier) -> BoxedStrategy<Case> {
 /// reproduce the harness's own accumulator encoding of the same message (systematic encoding with an
 /// invertible tail is unique)
 fn wide_cases(_t: Tier) -> Vec<usize> {
-    vec![0, 1, 2]
+    vec![0, 1, 2, 3, 4, 5]
+}
+
+/// a staircase code whose message alone is longer than 2^16 bits: 6 checks, 70 000 message columns,
+/// 48 ones in the message part, placed in pairs of columns that agree modulo 2^16 (c and c + 65536)
+/// and at the far end; the messages set exactly one column of each pair
+fn check_wide_message(which: usize, p: &mut Probe) -> Check {
+    let (r, k) = (6usize, 70_000usize);
+    let n = r + k;
+    let mut h = ldpc_toolbox::sparse::SparseMatrix::new(r, n);
+    let mut rows: Vec<Vec<usize>> = vec![Vec::new(); r];
+    for i in 0..r {
+        for c in [i, 65_536 + i, 300 + 7 * i, 65_836 + 7 * i, 66_000 + 11 * i, 69_999 - i, 40_000 + i, 65_535 - i] {
+            h.insert(i, c);
+            rows[i].push(c);
+        }
+    }
+    h.insert(0, k);
+    for i in 1..r {
+        h.insert(i, k + i);
+        h.insert(i, k + i - 1);
+    }
+    let enc = guarded(|| Encoder::from_h(&h)).map_err(|e| Fail::new("from_h-panic", format!("Encoder::from_h panicked on the {r} x {n} staircase matrix: {e}")))?;
+    let enc = enc.map_err(|e| Fail::new("rejected-invertible", format!("Encoder::from_h returned {e:?} for a {r} x {n} matrix whose last columns are an exact staircase")))?;
+    let mut msg = vec![0u8; k];
+    let mut s = 0x77aa_u64 + which as u64;
+    for i in 0..r {
+        for (t, &c) in rows[i].iter().enumerate() {
+            // of each aliased pair (c, c + 65536) exactly one is set; the others pseudo-randomly
+            s = splitmix(s);
+            msg[c] = match t {
+                0 | 2 => ((which + i) % 2) as u8,
+                1 | 3 => ((which + i + 1) % 2) as u8,
+                _ => (s & 1) as u8,
+            };
+        }
+    }
+    let lay = (which % LAYOUTS as usize) as u8;
+    let gmsg: Vec<GF2> = to_gf2(&msg).to_vec();
+    let cw = guarded(|| with_layout(&gmsg, GF2::one(), lay, |v| enc.encode(&v))).map_err(|e| Fail::new("encode-panic", format!("encode panicked on the {n}-bit code (message layout {}): {e}", layout_name(lay))))?;
+    let cw = from_gf2(&cw);
+    p.inner += 1;
+    p.nontrivial();
+    p.class("more-than-65536-message-columns");
+    ensure!(cw.len() == n, "length", "codeword has length {} instead of {n}", cw.len());
+    ensure!(cw[..k] == msg[..], "not-systematic", "{n}-bit staircase code with a {k}-bit message: the codeword does not begin with the message");
+    let mut acc = 0u8;
+    for i in 0..r {
+        acc ^= rows[i].iter().fold(0u8, |a, &c| a ^ msg[c]);
+        ensure!(cw[k + i] == acc, "not-codeword", "{r} x {n} staircase code (ones of check {i} in message columns {:?}): parity bit {i} is {}, the accumulator gives {acc} (message layout {})", rows[i], cw[k + i], layout_name(lay));
+    }
+    Ok(())
 }
 
 fn check_wide(which: &usize, p: &mut Probe) -> Check {
+    if *which >= 3 {
+        return check_wide_message(*which, p);
+    }
     let rc = super::realcodes::code(4);
     let h = rc.h();
     let (n, k) = (rc.n, rc.k);
@@ -397,6 +454,7 @@ fn check_wide(which: &usize, p: &mut Probe) -> Check {
 
 /// fuzz-target body: a byte tape decoded into a matrix (r <= n) and a message seed
 pub fn fuzz_bytes(data: &[u8]) -> Check {
+    FUZZ_MODE.store(true, std::sync::atomic::Ordering::Relaxed);
     let (h, salt) = mat_from_bytes(data, 12, true);
     let case = Case { h, class: "fuzz".into(), msg_seed: salt };
     let mut p = Probe::default();
@@ -424,7 +482,7 @@ pub fn property() -> Property {
         }),
         Box::new(EnumSub {
             name: "encoder-wide",
-            rule: "one staircase code with more than 2^16 columns (35 000 x 70 600, sparse message part of column weight 3): from_h accepts it, encode of the zero message and of two pseudo-random messages (three memory layouts) equals the harness's own accumulator encoding bit for bit",
+            rule: "one staircase code with more than 2^16 columns (35 000 x 70 600, sparse message part of column weight 3): from_h accepts it, encode of the zero message and of two pseudo-random messages (three memory layouts) equals the harness's own accumulator encoding bit for bit; and a 6 x 70 006 staircase code (a message of 70 000 bits, ones of the message part in pairs of columns that agree modulo 2^16), three messages that set exactly one column of each pair",
             cases: wide_cases,
             check: check_wide,
             exhaustive: false,
